@@ -18,6 +18,7 @@ Positions of the surviving nodes are kept (reports still point into the file); a
 node it replaces."""
 from __future__ import annotations
 import ast
+import copy
 import os
 from typing import Dict, List
 
@@ -752,6 +753,114 @@ def _merge_same_test_ifs(tree: ast.Module) -> None:
             fn.body = merge(fn.body)
 
 
+def _split_tuple_assigns(tree: ast.Module) -> None:
+    """C25  `a, b = e1, e2` with plain local names on the left, none of which is read on the right: `a = e1; b = e2` (same evaluation
+    order; a binding of a local has no effect the later expressions could see)."""
+    def walk(body):
+        i = 0
+        while i < len(body):
+            st = body[i]
+            for fld in ("body", "orelse", "finalbody"):
+                b = getattr(st, fld, None)
+                if isinstance(b, list) and b and isinstance(b[0], ast.stmt):
+                    walk(b)
+            if isinstance(st, ast.Try):
+                for h in st.handlers:
+                    walk(h.body)
+            if isinstance(st, ast.Assign) and len(st.targets) == 1 and isinstance(st.targets[0], ast.Tuple) and isinstance(st.value, ast.Tuple) \
+                    and len(st.targets[0].elts) == len(st.value.elts) and all(isinstance(t_, ast.Name) for t_ in st.targets[0].elts) \
+                    and not any(isinstance(v, ast.Starred) for v in st.value.elts):
+                names = {t_.id for t_ in st.targets[0].elts}
+                if len(names) == len(st.targets[0].elts) and not any(isinstance(x, ast.Name) and x.id in names for v in st.value.elts for x in ast.walk(v)):
+                    new = [ast.copy_location(ast.Assign(targets=[t_], value=v, lineno=st.lineno), st) for t_, v in zip(st.targets[0].elts, st.value.elts)]
+                    body[i:i + 1] = new
+                    i += len(new)
+                    continue
+            i += 1
+    for n in ast.walk(tree):
+        if isinstance(n, (ast.FunctionDef, ast.AsyncFunctionDef)):
+            walk(n.body)
+
+
+def _thread_sentinels(tree: ast.Module) -> None:
+    """C24  jump threading for sentinel results.  `if c: ...; x = E  else: ...; x = None` followed by `if x is None: A else: B` (the shape an
+    inlined helper that returns None-or-a-value leaves behind) becomes `if c: ...; x = E; if x is None: A else: B   else: ...; x = None; A`:
+    the test that follows is copied into every arm and decided where the arm has just bound x to a constant.  Pure duplication, no
+    assumption about E; at most one arm keeps the undecided copy."""
+    NOVAL = object()
+
+    def simple_test(t: ast.expr):
+        """(name, fn: constant -> bool) for tests that read one local only"""
+        if isinstance(t, ast.Name):
+            return t.id, (lambda v: bool(v))
+        if isinstance(t, ast.UnaryOp) and isinstance(t.op, ast.Not) and isinstance(t.operand, ast.Name):
+            return t.operand.id, (lambda v: not v)
+        if isinstance(t, ast.Compare) and len(t.ops) == 1 and isinstance(t.left, ast.Name) and isinstance(t.comparators[0], ast.Constant) and t.comparators[0].value is None:
+            if isinstance(t.ops[0], ast.Is):
+                return t.left.id, (lambda v: v is None)
+            if isinstance(t.ops[0], ast.IsNot):
+                return t.left.id, (lambda v: v is not None)
+        return None
+
+    def last_value(arm, x):
+        if not arm:
+            return None
+        st = arm[-1]
+        if isinstance(st, ast.Assign) and len(st.targets) == 1 and isinstance(st.targets[0], ast.Name) and st.targets[0].id == x:
+            return ("const", st.value.value) if isinstance(st.value, ast.Constant) else ("expr", NOVAL)
+        if isinstance(st, ast.If) and st.body and st.orelse:
+            a, b = last_value(st.body, x), last_value(st.orelse, x)
+            if a is None or b is None:
+                return None
+            return ("tree", [a, b])
+        return None
+
+    def leaves(v):
+        if v[0] == "tree":
+            return [l for sub in v[1] for l in leaves(sub)]
+        return [v]
+
+    def push(arm, x, nxt: ast.If, decide):
+        st = arm[-1]
+        if isinstance(st, ast.If):
+            push(st.body, x, nxt, decide)
+            push(st.orelse, x, nxt, decide)
+            return
+        if isinstance(st.value, ast.Constant):
+            arm.extend(copy.deepcopy(nxt.body if decide(st.value.value) else nxt.orelse))
+        else:
+            arm.append(copy.deepcopy(nxt))
+
+    def walk(body):
+        i = 0
+        while i < len(body):
+            st = body[i]
+            for fld in ("body", "orelse", "finalbody"):
+                b = getattr(st, fld, None)
+                if isinstance(b, list) and b and isinstance(b[0], ast.stmt):
+                    walk(b)
+            if isinstance(st, ast.Try):
+                for h in st.handlers:
+                    walk(h.body)
+            if isinstance(st, ast.If) and st.body and st.orelse and i + 1 < len(body) and isinstance(body[i + 1], ast.If):
+                nxt = body[i + 1]
+                sim = simple_test(nxt.test)
+                if sim is not None:
+                    x, decide = sim
+                    v = last_value([st], x)
+                    if v is not None:
+                        ls = leaves(v)
+                        if sum(1 for l in ls if l[0] == "expr") <= 1 and any(l[0] == "const" for l in ls) and sum(1 for _ in ast.walk(nxt)) <= 400:
+                            push(st.body, x, nxt, decide)
+                            push(st.orelse, x, nxt, decide)
+                            del body[i + 1]
+                            continue
+            i += 1
+    for n in ast.walk(tree):
+        if isinstance(n, (ast.FunctionDef, ast.AsyncFunctionDef)):
+            walk(n.body)
+
+
 def canonicalise(tree: ast.Module, module: str = "") -> ast.Module:
     if os.environ.get("JV_CANON_C16", "0") == "1":  # off: the reference tree itself uses `all(...)` tests that rules address (is_list_str); the any / all idiom is handled in the rules
         _any_all_to_loops(tree)
@@ -762,12 +871,16 @@ def canonicalise(tree: ast.Module, module: str = "") -> ast.Module:
         _unroll_table_loops(tree, known)
     if os.environ.get("JV_CANON_C14", "1") == "1":
         tree = _DropAnn().visit(tree)
+    if os.environ.get("JV_CANON_C25", "1") == "1":
+        _split_tuple_assigns(tree)
     if os.environ.get("JV_CANON_C11", "1") == "1":
         tree = _Split().visit(tree)
         tree.body = _nest_guards(tree.body, False)
     tree = _Canon().visit(tree)
     if os.environ.get("JV_CANON_C22", "1") == "1":
         _merge_same_test_ifs(tree)
+    if os.environ.get("JV_CANON_C24", "1") == "1":
+        _thread_sentinels(tree)
     for n in ast.walk(tree):
         if isinstance(n, (ast.FunctionDef, ast.AsyncFunctionDef)):
             _inline_return_temps(n)
